@@ -295,6 +295,53 @@ def adaptive_case(tid, method, fam, gridname, atol, rtol):
     return {"tid": tid, "cfg": cfg, "ev": ev}
 
 
+def precision_histories(ctx):
+    """QuadHistory.tla read generically (configuration key x precision): every history of three adaptive solves over
+    {float32, float64} x {rk45, rk23} in one process; a float64 solve is as accurate as its tolerances ask whatever ran before
+    (the tableau constants live on the solver classes: nothing a call does may change them)"""
+    base = dict(MaxLen=3, KeyedByPrecision=True)
+    t, cf = tlcmod.gen_mc(ctx.work, "QuadHistory", "MC_QH_ivp", base, invariants=["RuleInCallPrecision"])
+    dot = os.path.join(ctx.work, "qh_ivp.dot")
+    ctx.model_check(t, cf, workers=4, dump_dot=dot, label="call histories (precision x method)", timeout=300)
+    hnodes, _, _ = tlcmod.parse_dot(dot)
+    os.remove(dot)
+    full = sorted([h_["hist"] for h_ in hnodes.values() if len(h_["hist"]) == 3], key=lambda h_: [(c_["call"]["dtype"], c_["call"]["n"]) for c_ in h_])
+    meth = {"na": "rk45", "nb": "rk23"}
+    TD = {"f32": torch.float32, "f64": torch.float64}
+    opts = {("rk45", "f64"): (1e-11, 1e-12, 2e-9), ("rk23", "f64"): (1e-10, 1e-11, 8e-9), ("rk45", "f32"): (1e-4, 1e-5, 2e-3), ("rk23", "f32"): (1e-4, 1e-5, 2e-3)}
+    n = 0
+    for hist in full:
+        n += 1
+        ctx.case(key=("ivp-history", tuple((c_["call"]["dtype"], meth[c_["call"]["n"]]) for c_ in hist)))
+        for pos, c_ in enumerate(hist):
+            dn, m = c_["call"]["dtype"], meth[c_["call"]["n"]]
+            dt_ = TD[dn]
+            rtol, atol, tol = opts[(m, dn)]
+            why = None
+            try:
+                ts = torch.tensor([0.0, 0.4, 1.1], dtype=dt_)
+                y0 = torch.tensor([1.0, -0.5], dtype=dt_)
+                a = torch.tensor(1.3, dtype=dt_)
+                yt = xitorch.integrate.solve_ivp(lambda t_, y_, a_: -a_ * y_ + torch.cos(t_ + 0.4), ts, y0, params=(a,), method=m, rtol=rtol, atol=atol)
+                # closed form of y' = -a y + cos(t + 0.4)
+                tt, aa = ts.double(), 1.3
+                part = lambda s_: (aa * torch.cos(s_ + 0.4) + torch.sin(s_ + 0.4)) / (aa * aa + 1.0)
+                ref = part(tt)[:, None] + (y0.double()[None, :] - part(tt[:1])[:, None]) * torch.exp(-aa * tt)[:, None]
+                err = float((yt.double() - ref).abs().max())
+                if yt.dtype != dt_:
+                    why = "result dtype %s for a %s solve" % (yt.dtype, dt_)
+                elif not err <= tol:
+                    why = "error %.2e against the closed form, the requested tolerances (rtol %g) allow %.0e" % (err, rtol, tol)
+            except Exception as e:
+                why = "raised %s: %s" % (type(e).__name__, str(e)[:100])
+            if why:
+                desc = [(p_["call"]["dtype"], meth[p_["call"]["n"]]) for p_ in hist]
+                ctx.violation("ivp/history/%s-after-%s" % (dn, "+".join(sorted(set(p_["call"]["dtype"] for p_ in hist[:pos]))) or "nothing"),
+                              "solve_ivp(%s, %s) as call %d of the history %s: %s" % (m, dn, pos + 1, desc, why), {"history": desc})
+                break
+    return n
+
+
 def fixed_numeric(ctx):
     """fixed-step methods: convergence order on a smooth problem, decreasing grids, tuple states, y(ts[0]) = y0"""
     n = 0
@@ -403,8 +450,9 @@ def run(ctx):
         key = "ivp/adaptive/%s/%s" % (t_["cfg"]["method"], "+".join(failed) if failed else (ev["a"] if ev else "incomplete"))
         ctx.violation(key, "solve_ivp %s not explained by AdaptiveRK at event %d/%d: %s" % (json.dumps(t_["cfg"]), matched + 1, total, json.dumps(ev)[:400]), {"cfg": t_["cfg"]})
     nnum = fixed_numeric(ctx)
+    nhist = precision_histories(ctx)
     ctx.samples.append({"cfg": traces[0]["cfg"], "events": traces[0]["ev"][:6]})
-    ctx.replayed = nfix
+    ctx.replayed = nfix + nhist
     ctx.notes.update(fixed_exact_cases=nfix, adaptive_runs=len(traces), try_events=sum(len(t_["ev"]) for t_ in traces), fixed_numeric_cases=nnum)
     ctx.assumptions += [
         "tableau entries are read from the imported modules and converted with Fraction.limit_denominator(1e7); an entry that does not round-trip is reported",
